@@ -324,19 +324,21 @@ type tkSlot struct {
 }
 
 type tkWorld struct {
-	c        *Case
-	prop     string
-	insts    map[string]*tkInst
-	slots    map[string]*tkSlot
-	delta    int64 // seconds the virtual clock is ahead of the wall clock
-	events   []string
-	foreign  []string
-	streams  map[string]bool
-	sigBody  map[string][]byte // per instance: first bad-signature response of the case (uniformity oracle)
-	sigDesc  map[string]string
-	lastPair string              // outcome of the previous cont line (for pair=1)
-	lastSeen string              // what the exchange handler received on the previous cont line
-	warm     map[string][]string // instance|callID -> identities that legitimately warmed a cache entry there
+	c           *Case
+	prop        string
+	insts       map[string]*tkInst
+	slots       map[string]*tkSlot
+	delta       int64 // seconds the virtual clock is ahead of the wall clock
+	events      []string
+	foreign     []string
+	streams     map[string]bool
+	sigBody     map[string][]byte // per instance: first bad-signature response of the case (uniformity oracle)
+	sigDesc     map[string]string
+	lastPair    string              // outcome of the previous cont line (for pair=1)
+	lastSeen    string              // what the exchange handler received on the previous cont line
+	callStream  map[string]string   // callID -> stream id its call token carries
+	streamOwner map[string]string   // hex(stream id) -> identity it was minted for
+	warm        map[string][]string // instance|callID -> identities that legitimately warmed a cache entry there
 }
 
 // tkStore is the fake object store behind an instance's external-location config: an
@@ -829,7 +831,8 @@ func tkFields(words []string) map[string]string {
 func tkExecProp(prop string) func(c *Case) {
 	return func(c *Case) {
 		w := &tkWorld{c: c, prop: prop, insts: map[string]*tkInst{}, slots: map[string]*tkSlot{}, streams: map[string]bool{},
-			sigBody: map[string][]byte{}, sigDesc: map[string]string{}, warm: map[string][]string{}}
+			sigBody: map[string][]byte{}, sigDesc: map[string]string{}, warm: map[string][]string{},
+			callStream: map[string]string{}, streamOwner: map[string]string{}}
 		tkCur = w
 		defer func() { tkCur = nil }()
 		for _, l := range c.Lines {
@@ -862,6 +865,22 @@ func (w *tkWorld) line(l string, f []string) {
 		c.Out(l, X(vgirpc.VerifC12NormalizeKey(MustUnX(f[1]))))
 	case "advance":
 		w.advance(l, f)
+	case "setttl", "setcache":
+		in := w.insts[f[1]]
+		if in == nil || len(f) < 3 {
+			w.bad(l, f[0])
+			return
+		}
+		n, _ := strconv.ParseInt(f[2], 10, 64)
+		if f[0] == "setttl" {
+			in.h.SetTokenTTL(time.Duration(n) * time.Millisecond)
+			in.ttlMs = n
+		} else {
+			in.h.SetCallStateCacheEntries(int(n))
+			in.cache = int(n)
+		}
+		c.Out(l, "ok")
+		c.Stat(f[0])
 	case "init":
 		w.opInit(l, f, kv)
 	case "cont":
@@ -1004,6 +1023,8 @@ func (w *tkWorld) opInit(l string, f []string, kv map[string]string) {
 		w.slots[n] = ks
 	}
 	w.streams[kstream] = true
+	w.callStream[kcid] = kstream
+	w.streamOwner[hex.EncodeToString([]byte(kstream))] = ident
 	w.warm[in.name+"|"+kcid] = append(w.warm[in.name+"|"+kcid], ident)
 	w.mintBinding(in, "cursor", ident, cur, l)
 	w.mintBinding(in, "call", ident, call, l)
@@ -1045,6 +1066,17 @@ func (w *tkWorld) opCont(l string, f []string, kv map[string]string) {
 	inKind := kv["in"]
 	if inKind != "i32" {
 		inKind = "i64"
+	}
+	// protocol metadata a continuation batch has no business carrying: none of it may change the outcome
+	if mm, ok := kv["mm"]; ok {
+		keys, vals = append(keys, vgirpc.MetaMethod), append(vals, mm)
+	}
+	if kv["extra"] == "1" {
+		keys = append(keys, vgirpc.MetaRequestVersion, vgirpc.MetaRequestID, vgirpc.MetaProtocolVersion, vgirpc.MetaServerID, "vgi_rpc.shm_segment_name", "vgi_rpc.shm_offset", "x-user-key")
+		vals = append(vals, "1", "req-77", "9.9.9", "someone-else", "/nosuch", "0", "v")
+		if !(kv["ptr"] == "1") && kv["extra_loc"] == "1" {
+			keys, vals = append(keys, vgirpc.MetaLocation), append(vals, "http://store.test/obj/none") // not a pointer: the batch has a row
+		}
 	}
 	// ptr=1: the continuation's input is externalized — the POST carries a zero-row pointer batch
 	// (tokens cur/call on it), the uploaded batch (tokens xcur/xcall on it) sits in the instance's store
@@ -1140,6 +1172,25 @@ func (w *tkWorld) opCont(l string, f []string, kv map[string]string) {
 	c.Stat("cont-" + strings.SplitN(cls, ":", 2)[0])
 
 	accepted := r.panicV == nil && !r.hasExc && r.status == 200
+	// the resolved call user code observes (dispatch hook's stream id) must be the one of the call the
+	// cursor names — never another call's, in particular never another identity's
+	if curBase != nil && curBase.kind == "cursor" {
+		if want, known := w.callStream[curBase.callID]; known {
+			for _, e := range w.events {
+				if strings.HasPrefix(e, "hs:") {
+					got := e[strings.LastIndex(e, ":")+1:]
+					if got != hex.EncodeToString([]byte(want)) {
+						owner, class := w.streamOwner[got], "resolved-call-of-another-call"
+						if owner != "" && !tkSameIdent(owner, ident) {
+							class = "cache-entry-served-to-other-identity"
+						}
+						w.oracle("C13", class, fmt.Sprintf("%q: cursor names call %s (stream %s) but the dispatch hook saw stream %s (minted for %q)", l, curBase.callID, want, got, owner))
+						w.oracle("C15", "cache-changes-handler-input", fmt.Sprintf("%q: cursor names call %s (stream %s) but the dispatch hook saw stream %s", l, curBase.callID, want, got))
+					}
+				}
+			}
+		}
+	}
 	// C13, history independence at the cache: a caller whose own call token was not presented can only
 	// be answered from an entry that the SAME caller warmed on this instance
 	if accepted && curBase != nil && curBase.kind == "cursor" && !curAlt && tkSameIdent(curBase.ident, ident) {
